@@ -31,7 +31,7 @@ ASSUMPTIONS = ['island rows are compared with an independent 8-connected flood f
 MIN_REACH = {'source_finder:SourceFinder.find_sources_in_image': 1, 'source_finder:SourceFinder.priorized_fit_islands': 1,
              'source_finder:SourceFinder._refit_islands': 1, 'source_finder:SourceFinder.result_to_components': 1}
 MIN_COUNTERS = {'island_positions_checked': 10, 'priorized_inputs_off_image_or_on_blank': 3, 'rows_checked': 200, 'island_rows_checked': 10, 'reruns_compared': 10, 'priorized_runs': 3,
-                'fresh_process_reruns': 1, 'table_rows_checked': 20, 'priorized_runs_from_a_table_without_uuid_column': 2, 'blind_runs_with_psf_map': 4, 'island_checks_with_flood_above_seed': 1, 'multi_component_islands_with_differing_psf': 3}
+                'fresh_process_reruns': 1, 'table_rows_checked': 20, 'db_rows_checked': 20, 'priorized_runs_catalogue_psf_larger_than_image_psf': 2, 'db_minus1_markers': 1, 'priorized_runs_from_a_table_without_uuid_column': 2, 'blind_runs_with_psf_map': 4, 'island_checks_with_flood_above_seed': 1, 'multi_component_islands_with_differing_psf': 3}
 BATCHES_PER_JOB = 4
 
 ISLAND_FIELDS = ['island', 'components', 'background', 'local_rms', 'ra_str', 'dec_str', 'ra', 'dec', 'peak_flux', 'int_flux',
@@ -86,6 +86,10 @@ def cases(seed, tier):
                     'docov': bool(rng.random() < 0.5), 'fresh': i % 6 == 0, 'input': 'truth' if i % 2 else 'blind',
                     # the input catalogue as objects, as a table file written by Aegean, or as a foreign table without uuid column
                     'form': ['objects', 'file_no_uuid', 'objects', 'file'][i % 4], 'ext': ['csv', 'vot', 'fits'][(i // 4) % 3]})
+        if i % 4 in (1, 3) and i % 2:
+            # a catalogue made at lower resolution: its psf columns are larger than the image psf, so that sources at or below
+            # the catalogue psf deconvolve to nothing (they must be clipped to the image psf, not abort the run)
+            out[-1]['cat_psf_scale'] = [1.5, 3.0][(i // 4) % 2]
     return out
 
 
@@ -142,7 +146,7 @@ def _prior(fn, case, rms, catalogue):
                                     stage=case['stage'], doregroup=case['regroup'], ratio=None)
 
 
-def truth_catalogue(truth, beam, shape, z):
+def truth_catalogue(truth, beam, shape, z, psf_scale=1.0):
     """ComponentSource objects for the injected sources whose centre is on the image, one island each"""
     from AegeanTools.models import ComponentSource
     import uuid
@@ -159,7 +163,7 @@ def truth_catalogue(truth, beam, shape, z):
         s.err_a = s.err_b = 0.1
         s.err_pa = 0.5
         s.err_int_flux = abs(s.int_flux) * 0.02
-        s.psf_a, s.psf_b, s.psf_pa = beam[0] * 3600, beam[1] * 3600, beam[2]
+        s.psf_a, s.psf_b, s.psf_pa = beam[0] * 3600 * psf_scale, beam[1] * 3600 * psf_scale, beam[2]
         s.local_rms, s.background = 1.0, 0.0
         s.residual_mean = s.residual_std = 0.0
         s.flags = 0
@@ -292,7 +296,7 @@ def _input_catalogue(case, fn, rms, truth, z):
             extra.append(dict(truth[0], ra=float(ra), dec=float(dec), index=[i, j]))
         allsrc = list(truth) + extra
         allsrc = [allsrc[k] for k in rng.permutation(len(allsrc))]
-        return truth_catalogue(allsrc, case['field']['beam'], case['field']['shape'], z)
+        return truth_catalogue(allsrc, case['field']['beam'], case['field']['shape'], z, psf_scale=case.get('cat_psf_scale', 1.0))
     from AegeanTools.models import ComponentSource
     blind = _blind(fn, dict(case, docov=False, max_summits=None, island=False), rms)
     return [s for s in blind if isinstance(s, ComponentSource)]
@@ -378,6 +382,8 @@ def run(case):
                 o.n_eval += 1
                 o.count('own_runs')
                 o.count('priorized_runs')
+                if case.get('cat_psf_scale', 1.0) != 1.0 and case['input'] == 'truth':
+                    o.count('priorized_runs_catalogue_psf_larger_than_image_psf')
                 o.see('priorized_stage_regroup', '%d/%s' % (case['stage'], case['regroup']))
                 if len(cat) > 20:
                     o.count('priorized_runs_over_20_inputs')
@@ -593,3 +599,34 @@ def _check_table(o, ctx, srcs, comps, sc):
         return
     catalog_inv.check_components(rows, lambda c, w: o.violate('table_' + c, w), lambda n, k=1: o.count('table_' + n, k),
                                  dict(ctx, where='cat_comp.csv'))
+    # ---- the same catalogue as an sqlite database: the table must satisfy the same row invariants (a -1 "no error" marker
+    #      stored as NULL is neither positive nor -1)
+    import sqlite3
+    dbf = os.path.join(sc, 'cat.db')
+    if os.path.exists(dbf):
+        os.remove(dbf)
+    try:
+        catalogs.save_catalog(dbf, srcs)
+    except Exception:
+        import traceback
+        o.violate('save_catalog_raises', dict(ctx, traceback=traceback.format_exc()[-1500:], file='cat.db'))
+        return
+    con = sqlite3.connect(dbf)
+    try:
+        cur = con.execute('SELECT * FROM components')
+        names = [d[0] for d in cur.description]
+        drows = [dict(zip(names, rec)) for rec in cur.fetchall()]
+    except sqlite3.Error as e:
+        drows = None
+        if comps:
+            o.violate('table_missing', dict(ctx, expected='components table in cat.db', error=str(e)))
+    finally:
+        con.close()
+    if drows is not None:
+        o.count('db_rows_checked', len(drows))
+        if len(drows) != len(comps):
+            o.violate('table_row_count', dict(ctx, table=len(drows), returned=len(comps), file='cat.db'))
+        elif not [k for k in catalog_inv.COMPONENT_FIELDS if k not in names]:
+            catalog_inv.check_components(drows, lambda c, w: o.violate('table_' + c, w), lambda n, k=1: o.count('db_' + n, k),
+                                         dict(ctx, where='cat.db'))
+            o.count('db_minus1_markers', sum(1 for r_ in drows for e_ in catalog_inv.ERRS if r_.get(e_) == -1))
